@@ -457,7 +457,10 @@ def run(tier, seed):
         vlib.binding_selftest(o, FAMILY, "FrostTrace", "FrostTrace.cfg", trc, mutators(cb=True))
         if len(o.selftests) < nst + len(mutators()) + len(mutators(cb=True)):
             raise vlib.Infra("binding self-test: some negative control found no applicable trace")
-    return vlib.finish(o, "exploration", RULE, ASSUMPTIONS)
+    # the Pedersen path of the ceremony (dkg/pedersen): own spec family, same loop (specs/Pedersen, harness/pedersen)
+    import grow_pedersen
+    grow_pedersen.stage(o, tier, seed)
+    return vlib.finish(o, "exploration", RULE + " || " + grow_pedersen.RULE, ASSUMPTIONS + list(grow_pedersen.ASSUMPTIONS))
 
 
 def replay(path):
